@@ -67,6 +67,28 @@ def eval_rhel5(version, bp_version, variants, ctype, date, respin):
     return {"id": cid, "validate": _call(ci.compose.validate), "decoded": _call(pc.get_date_type_respin, cid)}
 
 
+def eval_variant_id(rel, vrel, ctype, date, respin):
+    """the compose id the library creates for a layered-product VARIANT shipped inside a compose (Variant.compose_id)"""
+    import productmd.composeinfo as pc
+    from mc.build import ci as CI
+    spec = CI.seed_flat()
+    spec["release"].update({"short": rel[0], "version": rel[1], "type": rel[2]})
+    spec["compose"].update({"type": ctype, "date": date, "respin": respin})
+    lp = CI.vspec("lp", "layered-product", ["x86_64"], parent_uid="Server")
+    lp["release"] = {"name": "Layered", "short": vrel[0], "version": vrel[1], "type": vrel[2], "is_layered": True, "internal": False}
+    spec["variants"][0]["children"] = [lp]
+    ci = CI.build(spec)
+    out = {"plain_variant_id_is_compose_id": ci["Server"].compose_id == ci.compose.id}
+    made = _call(lambda: ci["Server-lp"].compose_id)
+    out["id"] = made
+    if made[0] == "ok":
+        probe = pc.ComposeInfo()
+        probe.compose.id, probe.compose.type, probe.compose.date, probe.compose.respin = made[1], ctype, date, respin
+        out["validate"] = _call(probe.compose.validate)
+        out["decoded"] = _call(pc.get_date_type_respin, made[1])
+    return out
+
+
 def eval_decode(cid):
     import productmd.composeinfo as pc
     return {"decoded": _call(pc.get_date_type_respin, cid)}
@@ -133,6 +155,7 @@ def units(tier, seed):
         us.append(("dec3", a))
     us.append(("legacy", seed))
     us.append(("rhel5",))
+    us.append(("variant-id",))
     return us
 
 
@@ -169,6 +192,30 @@ def _check_encode(rel, bp, ctype, date, respin, acc):
 
 def run_unit(unit, acc):
     kind = unit[0]
+    if kind == "variant-id":
+        for rel in (("f", "23", "ga"), ("my-prod", "7.1", "updates")):
+            for vrel in (("sat", "6.2", "ga"), ("sat", "6.2", "eus")):
+                for ctype, date, respin in itertools.product(ids.COMPOSE_TYPES_DOC, DATES[:2], (0, 3, 12)):
+                    case = {"kind": "variant-id", "rel": list(rel), "vrel": list(vrel), "ctype": ctype, "date": date, "respin": respin}
+                    o = eval_variant_id(rel, vrel, ctype, date, respin)
+                    acc.ev()
+                    acc.nontriv(json.dumps(case, sort_keys=True))
+                    msg = None
+                    if not o["plain_variant_id_is_compose_id"]:
+                        msg = "the compose id of an ordinary variant is not the compose's id"
+                    elif o["id"][0] != "ok":
+                        msg = "Variant.compose_id raised %s" % o["id"][1]
+                    elif not o["id"][1].startswith("%s-%s" % (vrel[0], vrel[1])):
+                        msg = "id %r does not start with the variant's release short name and version" % o["id"][1]
+                    elif o["validate"][0] != "ok":
+                        msg = "id %r fails the library's own validation" % o["id"][1]
+                    elif o["decoded"] != ["ok", [date, ctype, respin]]:
+                        msg = "id %r decodes to %s, created from %s" % (o["id"][1], o["decoded"], [date, ctype, respin])
+                    if msg:
+                        acc.violation("variant-compose-id", case, o, "layered-product variant %s in a %s compose of %s: %s" % (vrel, ctype, rel, msg))
+                    else:
+                        acc.outcome("variant-id:ok")
+        return
     if kind == "enc":
         _, rel, bps = unit
         for bp in bps:
@@ -242,6 +289,8 @@ def run_unit(unit, acc):
 
 
 def replay(case):
+    if case["kind"] == "variant-id":
+        return eval_variant_id(case["rel"], case["vrel"], case["ctype"], case["date"], case["respin"])
     if case["kind"] == "enc":
         return eval_encode(case["rel"], case["bp"], case["ctype"], case["date"], case["respin"])
     if case["kind"] == "dec":
